@@ -121,6 +121,10 @@ def _run(ev, work, thorough):
     ev.exhaustive = True
     for h in hists[:2]:
         ev.sample([{k: v for k, v in r.items() if k != "steps"} for r in h])
+    # ---- traces of the repository's own test-suite against the per-call contract clauses (harness/checks/suite.py) ----
+    if thorough:
+        from . import suite as SUITE
+        SUITE.stage(ev, verd, work, 'C09', True)
     n = verd.report(ev)
     return 1 if n else 0
 
